@@ -78,8 +78,9 @@ def run(ctx):
     core.import_ecdsa()
     quick = ctx.tier == "quick"
     rnd = random.Random(ctx.seed)
-    plan = [("T23", "all"), ("T43", "some"), ("T263", "few")] if quick else \
-           [("T23", "all"), ("T43", "all"), ("T29", "all"), ("T41", "all"), ("T263", "some"), ("T257", "some"), ("T251", "some")]
+    plan = [("T23", "all"), ("T43", "some"), ("T43a", "some"), ("T43z", "few"), ("T263", "few")] if quick else \
+           [("T23", "all"), ("T43", "all"), ("T43a", "all"), ("T43z", "some"), ("T29", "all"), ("T41", "all"), ("T263", "some"), ("T257", "some"),
+            ("T251", "some")]
     for cid, how in plan:
         p, a, b, n, G, h = toy.params(cid)
         if n < 100:
